@@ -13,6 +13,7 @@ import IoosQc.Props.C06
 import IoosQc.Props.C19
 import IoosQc.Props.C07
 import IoosQc.Props.C18
+import IoosQc.Model.FxParse
 
 open Lean IoosQc IoosQc.Wire
 
@@ -364,6 +365,26 @@ def handleC18 (j : Json) : D Json := do
   pure (Json.mkObj [("holds", toJson (C18.holds es obs)),
                     ("model", Json.arr ((runEntries es).map fun (k, v) => Json.arr #[Json.str k, toJson v]).toArray)])
 
+/-- kind = "fx_parse": the expression STRING is parsed by the Lean model of the grammar
+    (`parseString`) and evaluated; the observation of `eval_fx` on the same string must be the
+    ordinary arithmetic value of that tree, or an error where the string is outside the grammar
+    / divides by zero. -/
+def handleFxParse (j : Json) : D Json := do
+  let st ← field j "stats" >>= asStats
+  let fx ← field j "fx" >>= asStr
+  let oj ← field j "obs"
+  let o : FxObs ← (match optField oj "error" with
+    | some er => FxObs.error <$> asErr er
+    | none => FxObs.value <$> (field oj "value" >>= asRat))
+  let tree := parseString fx
+  let holds := match tree with
+    | some e => C20.holdsEval st e o
+    | none => (match o with | .error _ => true | .value _ => false)
+  pure (Json.mkObj [("parsed", toJson tree.isSome), ("holds", toJson holds),
+                    ("model", match tree.bind (Expr.eval st) with
+                      | some v => Json.mkObj [("value", Json.arr #[toJson v.num, toJson v.den])]
+                      | none => Json.mkObj [("error", Json.str "Exception")])])
+
 def dispatch (kind : String) (j : Json) : D Json :=
   match kind with
   | "test" => handleTest j
@@ -371,6 +392,7 @@ def dispatch (kind : String) (j : Json) : D Json :=
   | "agg" => handleAgg j
   | "fx_eval" => handleFxEval j
   | "fx_valid" => handleFxValid j
+  | "fx_parse" => handleFxParse j
   | "window" => handleWindow j
   | "c16" => handleC16 j
   | "c17" => handleC17 j
